@@ -299,6 +299,47 @@ def correspond(ctx):
                 lines.append(berr_line('std', sv, sv['w'], [], 0.0))
                 metas.append(('berr', m))
                 add_bc(sv, m)
+    # mpspline: a smoothing fit with lam_smooth, then the baseline fit with lam (documented: both are P-spline systems); the penalty
+    # in force is taken from the CALL's arguments, not from the solver object
+    from scipy.ndimage import grey_closing
+    for _ in range(4 if not ctx.thorough else 12):
+        deg = int(rng.integers(1, 5))
+        num_knots = int(rng.choice([5, 9, 14]))
+        nb = num_knots + deg - 1
+        d = int(rng.integers(1, min(4, nb - 1) + 1))
+        pattern = patterns[int(rng.integers(0, len(patterns)))]
+        n = int(rng.choice([nb + 4, 45, 70]))
+        x = make_x(rng, pattern, n)
+        y = make_y(rng, x)
+        lam = float(10.0 ** int(rng.integers(1, 6)))
+        lam_smooth = float(10.0 ** int(rng.integers(-3, 1)))
+        uw = None if rng.random() < 0.5 else np.round(rng.uniform(0.05, 1, n) * 64) / 64
+        kw = dict(lam=lam, lam_smooth=lam_smooth, num_knots=num_knots, spline_degree=deg, diff_order=d, half_window=3, weights=uw)
+        with Capture() as cap:
+            try:
+                with np.errstate(all='ignore'):
+                    b, p = Baseline(x).mpspline(y, **kw)
+            except Exception as ex:
+                ctx.count('raised:' + type(ex).__name__)
+                continue
+        if len(cap.solves) != 2:
+            ctx.notes.append(f'mpspline made {len(cap.solves)} P-spline solves instead of 2')
+            continue
+        ctx.case(('mpspline', pattern, n, num_knots, deg, d, lam, lam_smooth, uw is not None), nontrivial=True)
+        ctx.count('host:mpspline')
+        ctx.count('x:' + pattern)
+        order = np.argsort(x, kind='mergesort')
+        ys = y[order]
+        meta = {'host': 'mpspline', 'kind': 'std', 'pattern': pattern, 'n': n, 'x': x.tolist(), 'y': y.tolist(), 'num_knots': num_knots, 'deg': deg, 'd': d,
+                'kw': {k: (v.tolist() if isinstance(v, np.ndarray) else v) for k, v in kw.items()}}
+        s0, s1 = cap.solves
+        w0 = (ys == grey_closing(ys, 3)).astype(float)
+        lines.append(berr_line('std', dict(s0, lam=lam_smooth, y=ys), w0, [], 0.0))
+        metas.append(('berr', dict(meta, step='smoothing fit', lam=lam_smooth)))
+        wfin = np.asarray(p['weights'], float)[order]
+        lines.append(berr_line('std', dict(s1, lam=lam, y=s0['out']), wfin, [], 0.0))
+        metas.append(('berr', dict(meta, step='baseline fit', lam=lam)))
+        add_bc(s1, dict(meta, step='baseline fit', lam=lam))
     # utils.pspline_smooth: x exactly as given (sorted or not)
     for deg in range(0, 6):
         for pattern in patterns:
